@@ -1,5 +1,7 @@
 import TakVerif.Impl.Friendly
 import TakVerif.Spec.FPA
+import TakVerif.Proofs.WF
+import TakVerif.Proofs.AbsLite
 
 /-! Helper lemmas for `Props/C20_glue.lean`: the case analysis of the model of `Friendly.GetMove`
 (`Tak.Tak.Glue.friendlyGetMove`), and its agreement with the rule-driving part `Tak.FPA.friendlyGetMove` that C20's
@@ -277,5 +279,50 @@ theorem viewOf_init_empty (size : Nat) (x y : Int) : (viewOf (init size).cur).em
     simp only [List.getD_eq_getElem?_getD, List.getElem?_replicate]
     split <;> rfl
 
+
+/-! ### the bit-level position and its abstraction show the rules the same board -/
+
+open Spec.FPA in
+/-- the rules see the same board through the bitboards and through the abstraction -/
+theorem viewOfPos_abs {basis : Array W} {p : Pos} (h : WF basis p) : viewOfPos p = viewOf (Spec.abs p) := by
+  unfold viewOfPos viewOf
+  have hn := h.toFrame.n_le
+  congr 1
+  funext x y
+  show (if _ then true else _) = (if _ then true else _)
+  have hsz : (Spec.abs p).size = p.cfg.size := rfl
+  rw [hsz]
+  generalize hi : x + y * (p.cfg.size : Int) = i
+  by_cases hneg : i < 0
+  · rw [if_pos (Or.inl hneg), if_pos hneg]
+  · rw [if_neg hneg]
+    have hsq : (Spec.abs p).squares = (List.range (p.cfg.size * p.cfg.size)).map p.squareAt := rfl
+    rw [hsq]
+    by_cases hin : i.toNat < p.cfg.size * p.cfg.size
+    · have h64 : ¬ (i < 0 ∨ i ≥ 64) := by omega
+      rw [if_neg h64]
+      have : ((List.range (p.cfg.size * p.cfg.size)).map p.squareAt).getD i.toNat [] = p.squareAt i.toNat := by
+        simp [List.getD_eq_getElem?_getD, hin]
+      rw [this]
+      cases hs : p.squareAt i.toNat with
+      | nil =>
+        have := (Tak.Proofs.squareAt_nil_iff p i.toNat).mp hs
+        simp [BitVec.getLsbD_or, this.1, this.2]
+      | cons t rest =>
+        have hne : ¬ (p.white.getLsbD i.toNat = false ∧ p.black.getLsbD i.toNat = false) := by
+          intro hh; have := (Tak.Proofs.squareAt_nil_iff p i.toNat).mpr hh; rw [hs] at this; cases this
+        simp only [List.isEmpty_cons]
+        cases hw : p.white.getLsbD i.toNat <;> cases hb : p.black.getLsbD i.toNat <;>
+          simp [BitVec.getLsbD_or, hw, hb] at hne ⊢
+    · have : ((List.range (p.cfg.size * p.cfg.size)).map p.squareAt).getD i.toNat [] = [] := by
+        have hnone : (List.range (p.cfg.size * p.cfg.size))[i.toNat]? = none := by
+          rw [List.getElem?_eq_none_iff]; simp only [List.length_range]; omega
+        simp [List.getD_eq_getElem?_getD, hnone]
+      rw [this]
+      simp only [List.isEmpty_nil]
+      split
+      · rfl
+      · have hm := h.mask i.toNat (by omega)
+        simp [BitVec.getLsbD_or, hm.1, hm.2.1]
 
 end Tak.Glue
